@@ -198,3 +198,4 @@ func Any(conds ...bool) bool {
 	}
 	return r
 }
+func SymbolicClock() {}
